@@ -23,12 +23,14 @@ ASSUMPTIONS = ["scipy.stats quantiles as reference with the tolerances of C17 (1
                "printed precision: 3 decimals for ratio/lower/upper/qrr/std-residual, 8 significant digits for the covariance matrix",
                "Q and the design matrix rows are taken from the driver running the same library code on the same input; "
                "they are cross-checked against the printed covariance matrix"]
-REQUIRED_CLASSES = ["used=apriori", "used=aposteriori", "correlated", "dof=0", "dof>2"]
+REQUIRED_CLASSES = ["defect>0", "used=apriori", "used=aposteriori", "correlated", "dof=0", "dof>2"]
 
 
 @st.composite
 def case(draw):
-    net = draw(gen_net.determined_network(noise=1))
+    # one case in four is a free network (defect > 0, datum by constrained points): degrees of freedom include the defect
+    free = draw(st.integers(0, 3)) == 0
+    net = draw(gen_net.determined_network(noise=1, free=free))
     net["params"]["conf-pr"] = draw(st.sampled_from([0.95, 0.9, 0.99, 0.5, 0.999, 0.683, 0.05, 0.9995, 0.001]))
     net["params"]["sigma-apr"] = draw(st.sampled_from([0.5, 1, 2.5, 10, 10, 25, 50]))
     return {"net": net, "alg": draw(st.sampled_from(ALGS)), "k": draw(st.sampled_from([0.5, 2.0, 3.0, 10.0]))}
@@ -56,7 +58,12 @@ def sds_of(net):
 
 def oracle(c, stats):
     net, alg = c["net"], c["alg"]
-    if not gen_net.is_determined(net):
+    if net.get("free"):
+        from . import c20
+        if not c20.well_posed_free(net):
+            stats.label("discarded_free_not_well_posed")
+            return []
+    elif not gen_net.is_determined(net):
         stats.label("discarded_not_determined")
         return []
     gkf = nm.gkf_text(net)
@@ -69,6 +76,9 @@ def oracle(c, stats):
         return ["run.xml: %s" % e]
     if "error" in x:
         stats.label("refused")
+        if net.get("free") and alg == "envelope":
+            # known finding (C02): the envelope algorithm misjudges the rank of some well-posed free networks
+            return ["run.error.envelope_free: well-posed free network refused by envelope: %s" % x["error"]["descriptions"]]
         return ["run.error: determined network refused: %s" % x["error"]["descriptions"]]
     dump, crash = netrun.net_driver(gkf, alg)
     if crash is not None:
@@ -76,11 +86,19 @@ def oracle(c, stats):
     if dump.get("stage") != "adjusted":
         return ["driver.stage: %s" % str(dump)[:200]]
     S = x["summary"]
+    if net.get("free"):
+        from . import c20
+        dd = c20.datum_defect(net)
+        if S["defect"] != dd:
+            if alg == "envelope":
+                return ["run.error.envelope_free: well-posed free network adjusted by envelope with defect %d instead of %d" % (S["defect"], dd)]
+            return ["summary.defect: %d reported, datum defect %d" % (S["defect"], dd)]
     fails = []
     p = net["params"]
     m0apr = float(p["sigma-apr"])
     dof = S["dof"]
     stats.label("used=" + S["used"], "dof=%d" % dof if dof <= 2 else "dof>2")
+    stats.label("defect>0" if S["defect"] > 0 else "defect=0")
     correlated = any(cl.get("cov") and cl["cov"]["band"] > 0 for cl in net["clusters"])
     if correlated:
         stats.label("correlated")
@@ -223,6 +241,8 @@ def oracle(c, stats):
     except adjxml.NotWellFormed as e:
         return ["scaled.xml: %s" % e]
     if "error" in x2:
+        if net.get("free") and alg == "envelope":
+            return ["run.error.envelope_free: well-posed free network refused by envelope after scaling sigma-apr: %s" % x2["error"]["descriptions"]]
         return ["scaled.error: %s" % x2["error"]["descriptions"]]
     k = c["k"]
     S2 = x2["summary"]
@@ -252,6 +272,6 @@ def od_resid(dump, i):
 
 
 PARTS = [
-    Part("statistics", strategy=case, oracle=oracle, n={"quick": 1600, "thorough": 12000},
+    Part("statistics", strategy=case, oracle=oracle, n={"quick": 4000, "thorough": 30000},
          sample=lambda c: {"alg": c["alg"], "k": c["k"], "gkf": nm.gkf_text(c["net"])[:1200]}),
 ]
